@@ -26,7 +26,10 @@ def scenario_tree():
             # a sibling of the root whose NAME is the root's followed by " (deleted)": the kernel renders a live directory of that
             # name exactly like the root's path with the marker it appends for unlinked objects
             ["dir", H("root (deleted)"), 0o755], ["file", H("root (deleted)/hfile"), H("SIBLINGTWIN"), 0o644],
-            ["symlink", H("root (deleted)/hlink"), H("hfile")]]
+            ["symlink", H("root (deleted)/hlink"), H("hfile")],
+            # a place outside the root whose absolute path is longer than PATH_MAX (20 levels of 250-byte names): the kernel cannot
+            # render the path of anything moved there (ENAMETOOLONG from the procfs magic-link), so a check that reads it must fail closed
+            ["deepdir", H("outside/deep"), 20, 250]]
 
 
 # attacker actions: (name, ops, reverse ops)
@@ -46,6 +49,10 @@ ACTIONS = [
      [["rename", H("root (deleted)/stolen_a2"), H("root/a")]]),
     ("move d into the sibling directory 'root (deleted)'", [["rename", H("root/d"), H("root (deleted)/stolen_d2")]],
      [["rename", H("root (deleted)/stolen_d2"), H("root/d")]]),
+    ("move a/b to a place outside the root that is deeper than PATH_MAX", [["rename_into_deep", H("root/a/b"), H("outside/deep"), 20, 250, H("stolen_b")]],
+     [["rename_from_deep", H("outside/deep"), 20, 250, H("stolen_b"), H("root/a/b")]]),
+    ("move d/e to a place outside the root that is deeper than PATH_MAX", [["rename_into_deep", H("root/d/e"), H("outside/deep"), 20, 250, H("stolen_e")]],
+     [["rename_from_deep", H("outside/deep"), 20, 250, H("stolen_e"), H("root/d/e")]]),
 ]
 
 
